@@ -92,10 +92,13 @@ func (k SettlementKeeper) tryPayout(ctx sdk.Context, tenantId uint64, utxr *type
 	var validRecipients []*types.Recipient = make([]*types.Recipient, 0)
 	var totalWeight uint32 = 0
 	for _, recipient := range utxr.Recipients {
-		if !recipient.Address.IsNull() {
-			totalWeight += recipient.Weight
-			validRecipients = append(validRecipients, recipient)
+		// the zero address cannot be paid, and neither can a module account: the bank keeps those from receiving funds, and coins
+		// sent there behind the module's back would break its accounting
+		if recipient.Address.IsNull() || k.bk.BlockedAddr(sdk.AccAddress(common.FromHex(recipient.Address.String()))) {
+			continue
 		}
+		totalWeight += recipient.Weight
+		validRecipients = append(validRecipients, recipient)
 	}
 
 	if len(validRecipients) == 0 {
